@@ -603,3 +603,42 @@ func TestVerifC09Alloc(t *testing.T) {
 }
 
 func TestVerifReplay(t *testing.T) { vstat.RunReplays(t) }
+
+// ---------------------------------------------------------------------------
+// native fuzzing (thorough tier): arbitrary bytes as the stream, first bytes choose the
+// reader behaviour; the reference decoder is the oracle inside the target.
+func FuzzC09Stream(f *testing.F) {
+	f.Add([]byte{0, 0x80})
+	f.Add([]byte{1, 0xc0, 0x80, 0x00, 0x41})
+	f.Add([]byte{2, 0x40, 0x05, 1, 2, 3, 4, 5, 0x83, 'a', 'b', 'c'})
+	f.Add([]byte{3, 0xff, 0xff, 0xff, 0xff})
+	f.Fuzz(func(t *testing.T, data []byte) {
+		if len(data) < 1 {
+			return
+		}
+		b := data[0]
+		c := fcase{Raw: append([]byte{}, data[1:]...), Trunc: -1}
+		switch b % 4 {
+		case 0:
+			c.Reader = reader{Kind: "plain"}
+		case 1:
+			c.Reader = reader{Kind: "frag", Sizes: []int{1 + int(b>>4)}}
+		case 2:
+			c.Reader = reader{Kind: "frag", Sizes: []int{1, 3}, Zeros: []int{int(b>>6) & 3, 0, 1}, DataEOF: b&4 != 0}
+		default:
+			c.Reader = reader{Kind: "frag", DataEOF: true}
+		}
+		if err := vstat.Safely(func() error { return runFraming(t, c) }); err != nil {
+			t.Fatalf("%s", uFraming.Fail(c, "%v", err))
+		}
+	})
+}
+
+func FuzzC09Rapid(f *testing.F) {
+	f.Fuzz(rapid.MakeFuzz(func(rt *rapid.T) {
+		c := genCase(rt)
+		if err := vstat.Safely(func() error { return runFraming(nil, c) }); err != nil {
+			rt.Fatalf("%s", uFraming.Fail(c, "%v", err))
+		}
+	}))
+}
